@@ -514,13 +514,33 @@ theorem ensureBasic_fresh_of_fresh (ops : TreeOps τ) (d : TDict τ) (h : Fresh 
   obtain ⟨h1, h2, h3⟩ := h
   simp [h1, h2, h3]
 
-theorem ensureBasic_base (ops : TreeOps τ) (t : τ) : Fresh ops (ensureBasic ops (baseDict t)) := by
-  unfold ensureBasic baseDict Fresh
-  simp [setdefault]
+/-- every figure of the dict is either missing or that of the dict's current tree -/
+def PartialFresh (ops : TreeOps τ) (d : TDict τ) : Prop :=
+  (d.flops = none ∨ d.flops = some (ops.stats d.tree).flops) ∧
+  (d.write = none ∨ d.write = some (ops.stats d.tree).write) ∧
+  (d.size = none ∨ d.size = some (ops.stats d.tree).size)
+
+theorem partialFresh_of_fresh (ops : TreeOps τ) (d : TDict τ) (h : Fresh ops d) :
+    PartialFresh ops d := ⟨Or.inr h.1, Or.inr h.2.1, Or.inr h.2.2⟩
+
+theorem partialFresh_base (ops : TreeOps τ) (t : τ) : PartialFresh ops (baseDict t) :=
+  ⟨Or.inl rfl, Or.inl rfl, Or.inl rfl⟩
+
+/-- `ensure_basic_quantities_are_computed` completes a dict whose present figures are current -/
+theorem ensureBasic_fresh_of_partial (ops : TreeOps τ) (d : TDict τ) (h : PartialFresh ops d) :
+    Fresh ops (ensureBasic ops d) := by
+  obtain ⟨h1, h2, h3⟩ := h
+  unfold ensureBasic Fresh
+  rcases h1 with h1 | h1 <;> rcases h2 with h2 | h2 <;> rcases h3 with h3 | h3 <;>
+    simp [h1, h2, h3, setdefault]
 
 @[simp] theorem ensureBasic_tree (ops : TreeOps τ) (d : TDict τ) :
     (ensureBasic ops d).tree = d.tree := by
   unfold ensureBasic; split <;> rfl
+
+theorem ensureBasic_partial (ops : TreeOps τ) (d : TDict τ) (h : PartialFresh ops d) :
+    PartialFresh ops (ensureBasic ops d) :=
+  partialFresh_of_fresh ops _ (ensureBasic_fresh_of_partial ops d h)
 
 /-- a result record all of whose figures are present, and — when it carries a tree — equal that
     tree's `contract_stats()` -/
@@ -533,15 +553,48 @@ def TrueRecord (ops : TreeOps τ) (r : RDict τ) : Prop :=
 theorem trueRecord_failRec (ops : TreeOps τ) : TrueRecord ops (failRec : RDict τ) :=
   ⟨⟨none, none, none, rfl, rfl, rfl⟩, by intro t h; cases h⟩
 
+/-- the dict after the wrappers and the objective: its present figures are current; all are
+    present under the guard -/
+theorem scored_dict_fresh (ops : TreeOps τ) (ws : List Wrapper) (obj : Objective τ) (t : τ)
+    (d d' : TDict τ) (sc : Score) (hs : runStack ops ws (baseDict t) = some d)
+    (hc : obj.call ops d = some (d', sc)) :
+    PartialFresh ops d' ∧ ((obj.ensures = true ∨ ws ≠ []) → Fresh ops d') := by
+  have hd : PartialFresh ops d ∧ (ws ≠ [] → Fresh ops d) := by
+    by_cases hws : ws = []
+    · subst hws
+      simp only [runStack, Option.some.injEq] at hs
+      subst hs
+      exact ⟨partialFresh_base ops t, fun h => absurd rfl h⟩
+    · have hf := wrapper_stats_fresh ops ws hws (baseDict t) d hs
+      exact ⟨partialFresh_of_fresh ops d hf, fun _ => hf⟩
+  unfold Objective.call at hc
+  cases hv : obj.value (if obj.ensures = true then ensureBasic ops d else d) with
+  | none => simp [hv] at hc
+  | some v =>
+    simp only [hv, Option.some.injEq, Prod.mk.injEq] at hc
+    obtain ⟨hd', _⟩ := hc
+    subst hd'
+    by_cases he : obj.ensures = true
+    · simp only [he, if_true]
+      have := ensureBasic_fresh_of_partial ops d hd.1
+      exact ⟨partialFresh_of_fresh ops _ this, fun _ => this⟩
+    · rw [if_neg he]
+      refine ⟨hd.1, ?_⟩
+      rintro (h | h)
+      · exact absurd h he
+      · exact hd.2 h
+
 /-- **record_costs_true_partial** — (full statement: for every objective and every option set the
     record returned by `ComputeScore` carries `flops/write/size` equal to `contract_stats()` of
-    the tree it carries.)  Proved under the guard `obj.ensures = true ∨ ws ≠ []`: the objective
-    fills the missing figures, or at least one post-processing wrapper is configured.  Without
-    the guard the statement is false for the model as it is for the code, see
-    `record_costs_counterexample` (DESIGN 7f: `minimize='limit'` on the unrepaired tree). -/
+    the tree it carries.)  Proved under the guard
+    `postEnsure = true ∨ obj.ensures = true ∨ ws ≠ []`: `ComputeScore` or the objective fills the
+    missing figures, or at least one post-processing wrapper is configured.  Without the guard the
+    statement is false for the model as it is for the code, see `record_costs_counterexample`
+    (DESIGN 7f: `minimize='limit'` on the unrepaired tree). -/
 theorem record_costs_true_partial (ops : TreeOps τ) (ws : List Wrapper) (obj : Objective τ)
-    (onErr : OnErr) (raw : Raw τ) (r : RDict τ) (hguard : obj.ensures = true ∨ ws ≠ [])
-    (h : computeScore ops ws obj onErr raw = some r) : TrueRecord ops r := by
+    (postEnsure : Bool) (onErr : OnErr) (raw : Raw τ) (r : RDict τ)
+    (hguard : postEnsure = true ∨ obj.ensures = true ∨ ws ≠ [])
+    (h : computeScore ops ws obj postEnsure onErr raw = some r) : TrueRecord ops r := by
   unfold computeScore at h
   have hexc : ∀ r', (if onErr = OnErr.raise then (none : Option (RDict τ)) else some failRec)
       = some r' → TrueRecord ops r' := by
@@ -566,28 +619,18 @@ theorem record_costs_true_partial (ops : TreeOps τ) (ws : List Wrapper) (obj : 
         rw [hc] at h
         simp only [Option.some.injEq] at h
         subst h
-        have hfresh : Fresh ops d' := by
-          unfold Objective.call at hc
-          cases hv : obj.value (if obj.ensures = true then ensureBasic ops d else d) with
-          | none => simp [hv] at hc
-          | some v =>
-            simp only [hv, Option.some.injEq, Prod.mk.injEq] at hc
-            obtain ⟨hd, _⟩ := hc
-            subst hd
-            by_cases hws : ws = []
-            · subst hws
-              simp only [runStack, Option.some.injEq] at hs
-              subst hs
-              rcases hguard with he | he
-              · simp only [he, if_true]; exact ensureBasic_base ops t
-              · exact absurd rfl he
-            · have hf := wrapper_stats_fresh ops ws hws (baseDict t) d hs
-              by_cases he : obj.ensures = true
-              · simp only [he, if_true]; rw [ensureBasic_fresh_of_fresh ops d hf]; exact hf
-              · simp only [he]; exact hf
+        obtain ⟨hpart, hfr⟩ := scored_dict_fresh ops ws obj t d d' sc hs hc
+        have hfresh : Fresh ops (if postEnsure = true then ensureBasic ops d' else d') := by
+          by_cases hp : postEnsure = true
+          · simp only [hp, if_true]; exact ensureBasic_fresh_of_partial ops d' hpart
+          · simp only [hp]
+            rcases hguard with h | h
+            · exact absurd h hp
+            · exact hfr h
+        generalize (if postEnsure = true then ensureBasic ops d' else d') = d'' at hfresh
         obtain ⟨h1, h2, h3⟩ := hfresh
-        refine ⟨⟨some (ops.stats d'.tree).flops, some (ops.stats d'.tree).write,
-          some (ops.stats d'.tree).size, by simp [h1], by simp [h2], by simp [h3]⟩, ?_⟩
+        refine ⟨⟨some (ops.stats d''.tree).flops, some (ops.stats d''.tree).write,
+          some (ops.stats d''.tree).size, by simp [h1], by simp [h2], by simp [h3]⟩, ?_⟩
         intro t' ht'
         simp only [Option.some.injEq] at ht'
         subst ht'
@@ -597,8 +640,8 @@ theorem record_costs_true_partial (ops : TreeOps τ) (ws : List Wrapper) (obj : 
     returns a record; a `BadTrial`, any other exception of the path function, of a wrapper or of
     the objective gives exactly the failure record (`inf` score and figures, no tree). -/
 theorem computeScore_total (ops : TreeOps τ) (ws : List Wrapper) (obj : Objective τ)
-    (onErr : OnErr) (raw : Raw τ) (hne : onErr ≠ .raise) :
-    ∃ r, computeScore ops ws obj onErr raw = some r ∧
+    (postEnsure : Bool) (onErr : OnErr) (raw : Raw τ) (hne : onErr ≠ .raise) :
+    ∃ r, computeScore ops ws obj postEnsure onErr raw = some r ∧
       (r.tree = none → r.score = none ∧ r.flops = some none ∧ r.write = some none ∧
         r.size = some none) := by
   unfold computeScore
@@ -617,11 +660,13 @@ theorem computeScore_total (ops : TreeOps τ) (ws : List Wrapper) (obj : Objecti
       | some p => exact ⟨_, rfl, fun h => by simp at h⟩
 
 theorem computeScore_failure (ops : TreeOps τ) (ws : List Wrapper) (obj : Objective τ)
-    (onErr : OnErr) : computeScore ops ws obj onErr (.badTrial : Raw τ) = some failRec := rfl
+    (pe : Bool) (onErr : OnErr) :
+    computeScore ops ws obj pe onErr (.badTrial : Raw τ) = some failRec := rfl
 
 /-- a record with a finite score carries a tree -/
 theorem finite_score_has_tree (ops : TreeOps τ) (ws : List Wrapper) (obj : Objective τ)
-    (onErr : OnErr) (raw : Raw τ) (r : RDict τ) (h : computeScore ops ws obj onErr raw = some r)
+    (postEnsure : Bool) (onErr : OnErr) (raw : Raw τ) (r : RDict τ)
+    (h : computeScore ops ws obj postEnsure onErr raw = some r)
     (hfin : slt r.score none = true) : r.tree.isSome = true := by
   unfold computeScore at h
   have hexc : ∀ r', (if onErr = OnErr.raise then (none : Option (RDict τ)) else some failRec)
@@ -693,19 +738,22 @@ def natOps : TreeOps Nat :=
 /-- **record_costs_counterexample** (DESIGN 7f) — without the guard the full statement fails: the
     record has no `flops` key, so `_maybe_report_result` raises `KeyError` (`toTrial = none`). -/
 theorem record_costs_counterexample :
-    ∃ r, computeScore natOps [] limitLike .warn (.ok 5) = some r ∧ r.flops = none ∧
+    ∃ r, computeScore natOps [] limitLike false .warn (.ok 5) = some r ∧ r.flops = none ∧
       toTrial id r = none ∧ ¬ TrueRecord natOps r := by
   refine ⟨_, rfl, rfl, rfl, ?_⟩
   rintro ⟨⟨f, w, s, hf, _, _⟩, _⟩
   cases hf
 
 /-- non-vacuity: the same objective behind any wrapper, and an ensuring objective alone -/
-example : ∃ r, computeScore natOps (setupStack true true false true) limitLike .warn (.ok 5) = some r ∧
+example : ∃ r, computeScore natOps (setupStack true true false true) limitLike false .warn (.ok 5) = some r ∧
     r.flops = some (some 80) ∧ r.tree = some 8 := ⟨_, rfl, rfl, rfl⟩
-example : ∃ r, computeScore natOps [] { limitLike with ensures := true } .warn (.ok 5) = some r ∧
+example : ∃ r, computeScore natOps [] { limitLike with ensures := true } false .warn (.ok 5) = some r ∧
     r.flops = some (some 50) ∧ toTrial id r =
       some { score := some 4, flops := some 50, write := some 15, size := some 5, tree := some 5 } :=
   ⟨_, rfl, rfl, rfl⟩
+/-- the repaired `ComputeScore` (post-ensure) with the non-filling objective and no wrapper -/
+example : ∃ r, computeScore natOps [] limitLike true .warn (.ok 5) = some r ∧
+    r.flops = some (some 50) ∧ (toTrial id r).isSome := ⟨_, rfl, rfl, rfl⟩
 example : setupStack true true true true = [.anneal, .slice, .sliceReconf, .reconf] := rfl
 
 end worker
